@@ -43,9 +43,95 @@ struct DeliveryRules
   // may an unknown (unparseable id) write appear? returns true if `msg` is acceptable
   std::function<bool(std::string const& msg)> unknown_ok;
   bool check_text = true;
+  bool check_attribution = true; // formatted line, thread id, logger name, named arguments
   bool check_order = true;
   bool allow_backtrace_replay = false; // kind==1 statements are handled by the C18 oracle
 };
+
+inline char const* level_name(int l)
+{
+  static char const* n[] = {"TRACE_L3", "TRACE_L2", "TRACE_L1", "DEBUG", "INFO", "NOTICE", "WARNING", "ERROR", "CRITICAL", "BACKTRACE", "NONE", "DYNAMIC"};
+  return (l >= 0 && l < 12) ? n[l] : "?";
+}
+inline char const* level_short(int l)
+{
+  static char const* n[] = {"T3", "T2", "T1", "D", "I", "N", "W", "E", "C", "BT", "_", "DN"};
+  return (l >= 0 && l < 12) ? n[l] : "?";
+}
+
+// The recording sink stores: statement \x1f thread_id \x1f logger_name [\x1f key=value]...
+// Check the line against the logger's (or the sink's override) pattern, the thread id against the issuing
+// simulated thread, the logger name, the reported level and the named arguments of the call site.
+inline std::string attribution_error(Model const& m, Issued const& is, int sink, Write const& w)
+{
+  std::vector<std::string> f;
+  {
+    size_t pos = 0;
+    std::string const& s = *w.stmt;
+    while (true)
+    {
+      size_t q = s.find('\x1f', pos);
+      if (q == std::string::npos)
+      {
+        f.push_back(s.substr(pos));
+        break;
+      }
+      f.push_back(s.substr(pos, q - pos));
+      pos = q + 1;
+    }
+  }
+  if (f.size() < 3)
+  {
+    return "malformed record";
+  }
+  int const lvl = is.kind == 1 ? 9 : is.level;
+  if (w.level != lvl)
+  {
+    return "reported level " + std::to_string(w.level) + " but the statement was issued with level " + std::to_string(lvl);
+  }
+  auto sid = m.thread_sim_id.find(is.thread);
+  std::string tid = sid != m.thread_sim_id.end() && sid->second >= 0 ? std::to_string(1000 + sid->second) : std::string{};
+  if (!tid.empty() && f[1] != tid)
+  {
+    return "thread id '" + f[1] + "' but the issuing thread is " + tid;
+  }
+  std::string lname = m.logger_name_at(is.logger, is.invoke_seq);
+  if (!lname.empty() && f[2] != lname)
+  {
+    return "logger name '" + f[2] + "' expected '" + lname + "'";
+  }
+  std::string want;
+  if (static_cast<size_t>(sink) < m.sink_override.size() && m.sink_override[static_cast<size_t>(sink)])
+  {
+    want = "S" + std::to_string(sink) + "|" + level_short(lvl) + "|" + *w.msg + "\n";
+  }
+  else
+  {
+    want = "L" + lname + "|" + level_name(lvl) + "|" + tid + "|" + *w.msg + "\n";
+  }
+  if (!lname.empty() && !tid.empty() && f[0] != want)
+  {
+    return "formatted line '" + f[0].substr(0, 120) + "' expected '" + want.substr(0, 120) + "'";
+  }
+  // named arguments: only the harness site 3 ("#{sid}# {text} {num}") has them
+  size_t const nargs = f.size() - 3;
+  if (is.kind == 0 && is.site == 3)
+  {
+    if (nargs != 3 || f[3].rfind("sid=", 0) != 0 || f[4].rfind("text=", 0) != 0 || f[5].rfind("num=", 0) != 0)
+    {
+      return "named arguments differ from the call site's (sid, text, num): got " + std::to_string(nargs) + " pairs";
+    }
+    if (f[3] != "sid=" + std::to_string(is.id))
+    {
+      return "named argument " + f[3] + " belongs to another statement";
+    }
+  }
+  else if (is.kind != 3 && is.kind != 4 && nargs != 0)
+  {
+    return "statement without named arguments was delivered with " + std::to_string(nargs) + " key/value pairs (first: " + f[3].substr(0, 60) + ")";
+  }
+  return {};
+}
 
 // returns OK or the first violation found
 inline Verdict check_delivery(Model const& m, DeliveryRules const& rules)
@@ -89,6 +175,14 @@ inline Verdict check_delivery(Model const& m, DeliveryRules const& rules)
       {
         return violation("text_mismatch", "id " + std::to_string(w.id) + " on sink " + std::to_string(s) + ": got '" +
                                             w.msg->substr(0, 160) + "' expected '" + is.expected.substr(0, 160) + "'");
+      }
+      if (rules.check_attribution)
+      {
+        std::string why = attribution_error(m, is, static_cast<int>(s), w);
+        if (!why.empty())
+        {
+          return violation("wrong_attribution", "id " + std::to_string(w.id) + " on sink " + std::to_string(s) + ": " + why);
+        }
       }
       int ex = rules.expect(is, static_cast<int>(s));
       if (ex == 0)
